@@ -377,9 +377,12 @@ def main(argv=None):
       'wall_s': round(wall, 2),
       'violations': len(violations),
   }
-  os.makedirs(os.path.join(ROOT, 'evidence'), exist_ok=True)
-  with open(os.path.join(ROOT, 'evidence', pid + '.json'), 'w') as f:
-    json.dump(evidence, f, indent=1, sort_keys=True)
+  # Evidence describes /repo as it is; runs against a scratch tree or a deliberately broken tree
+  # (tools/try_seeded.sh, tools/confirm_seeded.sh) must not overwrite it.
+  if not os.environ.get('PGV_NO_EVIDENCE') and os.environ.get('PGV_REPO', '/repo') == '/repo':
+    os.makedirs(os.path.join(ROOT, 'evidence'), exist_ok=True)
+    with open(os.path.join(ROOT, 'evidence', pid + '.json'), 'w') as f:
+      json.dump(evidence, f, indent=1, sort_keys=True)
   print('%s %s seed=%d evaluations=%d distinct_nontrivial=%d known_hits=%s wall=%.1fs' % (
       pid, tier, seed, evaluations, len(nontrivial), dict(known_hits), wall))
   if slowest[0] > 10:
